@@ -79,6 +79,21 @@ CLAIMED = {
             "FlateStream: TLC checks that cbuf.Write's split/shift arithmetic refines 'destination = compressor output minus its last min(4,n) bytes; Flush ok iff the output ends with 00 00 ff ff' for every chunking of every byte string <= 9 over 3 byte values. Real code: scripted compressors through wsflate.Writer (all <= 3-chunk splits of strings <= 5, thorough 7, with/without tail, then sticky-error probes), pass-through decompressors through wsflate.Reader (byte-reader/plain sources, 6 read modes incl. Reset), compress/flate at 5 levels x 7-10 payload classes x 5 write/flush patterns inflated by Python zlib at every flush and after Close, zlib sync-flushed streams (4 levels x 3 strategies) read back under 6 source/chunking modes, the frame helpers, and the end-to-end writer/reader stack with MessageState.",
             "Bit-level DEFLATE fidelity is delegated to Python zlib (stated in DESIGN 10); payload classes are samples.",
             "7/C12"),
+    "C09": ("exploration",
+            "TLA+ Handshake!ServerVerdict / AllowedStatus as oracle over abstract requests; the harness renders token classes to bytes and TLC judges what the real upgraders answered (record validation)",
+            "Requests are generated from token classes (so the classes are ground truth): the full product host x upgrade x connection x version x key classes (4x5x5x6x8 = 4800, quick: 1/3 + all with host ok) with seeded spellings (header-name case, blanks, token position inside lists, header order, CRLF/LF, extra headers), method/version forms alone and combined with a broken header, subprotocol lists x selectors, extension offers x selector/negotiator, five rejecting callbacks x six statuses; through Upgrader.Upgrade, ws.Upgrade, HTTPUpgrader.Upgrade (net/http-parsed request, fake hijacker) and ws.UpgradeHTTP. TLC checks: success iff compliant and no callback objected; 101 with the recomputed Sec-WebSocket-Accept; first client-ordered accepted subprotocol; extensions only from the offer; never a 101 on failure; status in the allowed set; 426 carries Sec-WebSocket-Version: 13; caller's headers present; Content-Length = body length.",
+            "Function-like property: the spec is an executable oracle (exploration level). Open cases listed in DESIGN 6.2 are not asserted.",
+            "7/C09"),
+    "C10": ("exploration",
+            "TLA+ Handshake!ClientVerdict as oracle over abstract responses + request clauses; record validation of Dialer.Upgrade / Dialer.Dial",
+            "Responses rendered from classes: proto x status-token class (incl. non-digit tokens with bytes 0x3A-0x3F and values wrapping mod 2^64) and upgrade/connection/accept/protocol/extension classes, with 0-3 trailing frames, 5 read-buffer sizes and 5 chunkings: success iff HTTP/1.x (x>=1), literal 101, Upgrade/Connection/Accept valid, protocol requested, every extension offered; on success protocol/extensions (names and parameters) are the server's and every trailing byte is readable once, in order, through br then the conn. Requests: 13 URL forms (ports, IPv6 literals, paths, queries, ws/wss, Host override) x 4 option sets x 2 dials: request line, Host, Upgrade, Connection, version, fresh 16-byte base64 key, protocols, extensions with quoted parameters, extra headers, NetDial address with default ports, TLS host name.",
+            "Expected URI/Host/address per URL form are hand-written ground truth; status tokens with leading zeros are not generated (open).",
+            "7/C10"),
+    "C11": ("exploration",
+            "record validation of dialer<->upgrader pairs, single-peer chunking independence and debug wrappers; ReadLine.tla (readLine over ReadSlice) evaluated by TLC for all short streams",
+            "Pairs: the real Dialer.Upgrade against the real Upgrader.Upgrade over a net.Pipe re-chunked in both directions for subprotocol lists x selectors x extension offers (with parameters that need quoting) x {selector, wsflate.Extension.Negotiate, table negotiator} x extra headers x header lines of 0/40/400 bytes x buffer sizes {0,16,64,300,4096}: both succeed with equal protocol and extensions, or both fail. Independence: 5 fixed requests and 4 fixed responses each served under 12 chunkings x 5 read buffers x 2 write buffers: outcome, handshake data and bytes written identical (random key masked). Debug wrappers: callbacks get exactly the bytes exchanged, same outcome as the plain peer, no post-handshake byte lost (head length swept over 0..69 pad bytes against read buffers 16/32/64).",
+            "A parameter value containing an embedded double quote is not round-tripped by the httphead dependency (outside this repository): not generated.",
+            "7/C11"),
 }
 
 PENDING_REASON = "check not built yet in this round (work in progress; planned in DESIGN.md section 7)"
